@@ -45,6 +45,38 @@ Theorem c19_no_overflow_le_u32 : forall s, ScopeModel.reachable s ->
 Proof. exact no_overflow. Qed.
 Print Assumptions c19_no_overflow_le_u32.
 
+(** Tier A: the constants and the arithmetic of the packed word are the ones threadpool/mod.rs has
+    NOW (gen/CountsFns.v is regenerated on every run; ScopeModel's transition system is built from
+    these functions): expected = high 32 bits, completed = low 32 bits, root callback pre-counted,
+    [expect_one] asserts expected < u32::MAX and adds 2^32 (wrapping u64), [complete_one] adds 1
+    (wrapping u64) and returns the previous word, completion is signalled iff
+    completed(previous) + 1 == expected(previous) (u32, wrapping) *)
+Theorem c19_counts_packing : forall v : N,
+  CountsFns.EXPECTED_SHIFT = 32%N /\ CountsFns.COMPLETED_MASK = 4294967295%N /\
+  CountsFns.with_root_callback = 4294967296%N /\
+  expected v = ((v / 4294967296) mod 4294967296)%N /\
+  completed v = (v mod 4294967296)%N /\
+  CountsFns.expect_one_guard v = (expected v <? 4294967295)%N /\
+  CountsFns.expect_one_next v = ((v + 4294967296) mod 18446744073709551616)%N /\
+  CountsFns.complete_one_next v = ((v + 1) mod 18446744073709551616)%N /\
+  CountsFns.complete_one_result v = v /\
+  is_last v = ((completed v + 1) mod 4294967296 =? expected v)%N.
+Proof. exact counts_packing. Qed.
+Print Assumptions c19_counts_packing.
+
+(** the model's transition system really is built from the regenerated functions: the initial
+    word, and what one [expect_one] / [complete_one] step does to [cnt] *)
+Theorem c19_scope_uses_regenerated_counts :
+  cnt ScopeModel.init = CountsFns.with_root_callback /\
+  (forall s w k s', ScopeModel.step s (LExpect w k) s' ->
+     CountsFns.expect_one_guard (cnt s) = true /\ cnt s' = CountsFns.expect_one_next (cnt s)) /\
+  (forall s w s', ScopeModel.step s (LComplete w) s' ->
+     cnt s' = CountsFns.complete_one_next (cnt s) /\
+     sent s' = if CountsFns.scope_complete_is_last (CountsFns.complete_one_result (cnt s))
+               then S (sent s) else sent s).
+Proof. exact scope_uses_regenerated_counts. Qed.
+Print Assumptions c19_scope_uses_regenerated_counts.
+
 (** [scope] leaves by unwinding iff the root callback or some spawned task panicked *)
 Theorem c19_panic_reported : forall s, ScopeModel.reachable s -> caller s = Ret ->
   reported s = (proot s || ptask s)%bool.
@@ -114,6 +146,32 @@ Theorem c19_rolock_reader_sees_complete_write : forall n s, RoLockModel.reachabl
                    a = RoLockModel.lastw s /\ b = RoLockModel.lastw s).
 Proof. exact RoLock.rolock_reader_sees_complete_write. Qed.
 Print Assumptions c19_rolock_reader_sees_complete_write.
+
+(** Tier A: the model's steps against the programs REGENERATED from concurrency/src/lib.rs
+    ([CountsFns.prog_rolock_read], [prog_rolock_lock], [prog_writer_drop]: synchronisation operations in
+    program order with the loop / match-on-token / if structure). (1) The three programs are in the
+    reviewed shape and the blocks of source operations the model's labels stand for ([RoProg.expand]),
+    concatenated per loop iteration, are EXACTLY the regenerated paths, in order, with the same exits:
+    load; ReadOk: fence(Acquire); return reader | load; WriteOngoing: drop guard; wait | load; ReadOk:
+    CAS; failed: retry | load; ReadOk: CAS; ok: drop guards; rcu; readers_done.wait; return writer |
+    load; WriteOngoing: drop guard; wait | drop: token.store(ReadOk) THEN unblock.notify. *)
+Require Verif.Conc.RoProg.
+Theorem c19_rolock_model_is_regenerated_program : forall t,
+  RoProg.read_paths <> None /\ RoProg.lock_paths <> None /\ RoProg.drop_paths <> None /\
+  map (fun it => (List.concat (map RoProg.expand (fst it)), snd it)) (RoProg.model_iterations t)
+  = RoProg.all_paths.
+Proof. exact RoProg.model_covers_program. Qed.
+Print Assumptions c19_rolock_model_is_regenerated_program.
+
+(** (2) every step of the model moves the acting thread along a regenerated path: its position
+    (source operations executed in the current iteration) grows by the label's block and stays a
+    proper prefix of a regenerated path, or the block completes one; steps of the user's critical
+    section execute none of the three routines *)
+Theorem c19_rolock_step_follows_program : forall s l s', RoLockModel.step s l s' ->
+  RoProg.follows (RoProg.pos (RoLockModel.pcof s (RoProg.actor l))) l
+                 (RoProg.pos (RoLockModel.pcof s' (RoProg.actor l))) = true.
+Proof. exact RoProg.step_follows_program. Qed.
+Print Assumptions c19_rolock_step_follows_program.
 
 (** an accepted event log of the real lock is a run of this system *)
 Theorem c19_rolock_replay_sound : forall n es, RoLockModel.check_case (n, es) = true ->
